@@ -231,8 +231,18 @@ func runSpec(a *app.Teleport, base sdk.Context, s Spec) Result {
 	var coord *xibctesting.Coordinator
 	var chain *xibctesting.TestChain
 	if s.Full {
-		coord = xibctesting.NewCoordinator(&testing.T{}, 1)
-		chain = coord.GetChain(xibctesting.GetChainID(0))
+		// starting a chain runs InitChain and the first BeginBlock of every module: a panic there is the
+		// observation "BeginBlocker panicked" for the first block of this history
+		if p, val := hlib.Catch(func() {
+			coord = xibctesting.NewCoordinator(&testing.T{}, 1)
+			chain = coord.GetChain(xibctesting.GetChainID(0))
+		}); p {
+			res := Result{Spec: s, Denoms: append([]string{}, validDenoms...)}
+			sort.Strings(res.Denoms)
+			zero := project(map[string]string{}, res.Denoms)
+			res.Obs = []StepObs{{RewardsClass: -1, EnableClass: -1, Class: 2, Panic: "chain start: " + val, Pool: zero, Fee: zero, RestSame: true}}
+			return res
+		}
 		a = chain.App
 		ctx = chain.GetContext()
 	}
@@ -341,12 +351,25 @@ func main() {
 	steps := flag.Int("steps", 8, "max extra steps per history")
 	in := flag.String("in", "", "replay: file of specs (JSON lines) instead of generating")
 	out := flag.String("out", "/dev/stdout", "output file (JSON lines)")
+	mode := flag.String("mode", "hist", "hist: parameter changes + BeginBlocker (pool / fee collector); world: interleaved with other modules' bank operations, whole blocks, raw params store; genesis: ValidateGenesis / InitGenesis / ExportGenesis")
 	flag.Parse()
 
-	a := app.Setup(false, nil)
+	// the application is started from its DEFAULT genesis (InitChain, then the first BeginBlock): a panic here is
+	// itself an observation (input = the default genesis state), not a harness failure
+	var a *app.Teleport
+	if p, val := hlib.Catch(func() { a = app.Setup(false, nil) }); p {
+		w := hlib.NewOut(*out)
+		w.Emit(map[string]interface{}{"mode": "setup", "setup_panic": val})
+		w.Close()
+		return
+	}
 	base := a.BaseApp.NewContext(false, tmproto.Header{Height: 1, ChainID: "teleport_9000-1"})
 	_ = banktypes.ModuleName
 
+	if *mode == "world" || *mode == "genesis" {
+		runOther(a, base, *mode, *in, *out, *seed, *n, *steps)
+		return
+	}
 	var specs []Spec
 	if *in != "" {
 		hlib.ReadLines(*in, func(line []byte) {
@@ -376,5 +399,66 @@ func main() {
 	defer w.Close()
 	for _, s := range specs {
 		w.Emit(runSpec(a, base, s))
+	}
+}
+
+// modes "world" and "genesis" (world.go): directed corpus first, then generated cases
+func runOther(a *app.Teleport, base sdk.Context, mode, in, out string, seed uint64, n, steps int) {
+	w := hlib.NewOut(out)
+	defer w.Close()
+	root := hlib.NewRand(seed ^ 0x5eed0c20)
+	switch mode {
+	case "world":
+		var specs []WSpec
+		if in != "" {
+			hlib.ReadLines(in, func(line []byte) {
+				var wrap struct {
+					Spec *WSpec `json:"spec"`
+				}
+				if err := json.Unmarshal(line, &wrap); err == nil && wrap.Spec != nil && wrap.Spec.Ops != nil {
+					specs = append(specs, *wrap.Spec)
+					return
+				}
+				var s WSpec
+				if err := json.Unmarshal(line, &s); err != nil {
+					panic(err)
+				}
+				specs = append(specs, s)
+			})
+		} else {
+			specs = worldCorpus()
+			for i := 0; i < n; i++ {
+				specs = append(specs, genWorld(root.Fork(uint64(i)), i, steps, i%8 == 7))
+			}
+		}
+		for _, s := range specs {
+			w.Emit(runWorld(a, base, s))
+		}
+	case "genesis":
+		var specs []GSpec
+		if in != "" {
+			hlib.ReadLines(in, func(line []byte) {
+				var wrap struct {
+					Spec *GSpec `json:"spec"`
+				}
+				if err := json.Unmarshal(line, &wrap); err == nil && wrap.Spec != nil && wrap.Spec.Rewards != nil {
+					specs = append(specs, *wrap.Spec)
+					return
+				}
+				var s GSpec
+				if err := json.Unmarshal(line, &s); err != nil {
+					panic(err)
+				}
+				specs = append(specs, s)
+			})
+		} else {
+			specs = genesisCorpus()
+			for i := 0; i < n; i++ {
+				specs = append(specs, genGenesis(root.Fork(uint64(i)+1000000), i))
+			}
+		}
+		for _, s := range specs {
+			w.Emit(runGenesis(a, base, s))
+		}
 	}
 }
